@@ -13,63 +13,7 @@ FAULTV, STICKY, ERRV = z3.Int("fault_at"), z3.Bool("sticky"), z3.Int("errno_idx"
 ERRNOS = [_errno.EIO, _errno.ENOSPC, _errno.EACCES]
 
 
-class WouldBlock(Exception):
-    """a wait() with nobody left to notify: the identifier stayed locked"""
-
-
-class SeqLock:
-    def __init__(self):
-        self.held = False
-
-    def acquire(self, blocking=True, timeout=-1):
-        if self.held:
-            raise WouldBlock("lock already held in a single-threaded run")
-        self.held = True
-        return True
-
-    def release(self):
-        self.held = False
-
-    def __enter__(self):
-        self.acquire()
-        return self
-
-    def __exit__(self, *a):
-        self.release()
-
-    def locked(self):
-        return self.held
-
-
-class SeqCondition:
-    def __init__(self, lock=None):
-        self.lock = lock or SeqLock()
-
-    def __enter__(self):
-        self.lock.acquire()
-        return self
-
-    def __exit__(self, *a):
-        self.lock.release()
-
-    def wait(self, timeout=None):
-        raise WouldBlock("wait() with no other thread: identifier left locked")
-
-    def notify(self, n=1):
-        pass
-
-    def notify_all(self):
-        pass
-
-
-class _Mgr:
-    def list(self, *a):
-        return list(*a)
-
-
-import types as _types  # noqa: E402
-SEQ_THREADING = _types.SimpleNamespace(Lock=SeqLock, Condition=SeqCondition, RLock=SeqLock)
-SEQ_MULTIPROCESSING = _types.SimpleNamespace(Lock=SeqLock, Condition=SeqCondition, Manager=lambda: _Mgr())
+from .seqsync import WouldBlock, SeqLock, SeqCondition, SEQ_THREADING, SEQ_MULTIPROCESSING   # noqa: E402,F401
 
 
 def run_fault(ps, w, menu, nerr=1, pinned=None, obstruct=False):
